@@ -63,8 +63,8 @@ def write_fasta(path):
 
 
 # ------------------------------------------------------------------------------------------------ shapes
-SHAPES_QUICK = ('single', 'full', 'split', 'dove1')
-SHAPES_THOROUGH = ('single', 'full', 'split', 'dove1', 'dove2', 'indel')
+SHAPES_QUICK = ('single', 'full', 'split', 'gap', 'dove1')
+SHAPES_THOROUGH = ('single', 'full', 'split', 'gap', 'dove1', 'dove2', 'indel')
 
 
 def shape_layout(shape, L):
@@ -81,6 +81,10 @@ def shape_layout(shape, L):
         if L < 2:
             return None
         return iv(0, (L + 1) // 2), iv(L // 2, L)
+    if shape == 'gap':                     # mates do not touch: the bases in between are covered by nobody
+        if L < 3:
+            return None
+        return iv(0, (L - 1) // 2), iv((L + 2) // 2, L)
     if shape == 'dove1':
         if L < 2:
             return None
